@@ -75,6 +75,8 @@ def parts():
                    final(self).wf(), // @core:C01,C05,C11,C16
                    old(self)@.contains_key(request_id) ==> r is Err && final(self)@ =~= old(self)@ && final(self).timers() =~= old(self).timers(), // @C01,C11
                    !old(self)@.contains_key(request_id) ==> r is Ok && final(self)@ =~= old(self)@.insert(request_id, CEntry { ctx, chan: response_completion.chan() }), // @C01,C18
+                   // the step of the history lemma (lemmas/client_history.rs); this function has no effect-log parameter: it delivers nothing
+                   step_insert::<Res>(old(self)@, Seq::empty(), final(self)@, Seq::empty(), request_id, CEntry { ctx, chan: response_completion.chan() }), // @C01
                    !old(self)@.contains_key(request_id) ==> !old(self).timers().contains_key(final(self).key_of(request_id))
                        && final(self).timers() =~= old(self).timers().insert(final(self).key_of(request_id), delay_queue::Entry { value: request_id, delay: dmin(until(ctx.deadline), max_timer_delay()) }), // @C05,C11
                '''),
@@ -87,6 +89,7 @@ def parts():
                    old(self)@.contains_key(request_id) ==> final(fx).log == old(fx).log.push(Effect::Deliver { chan: old(self)@[request_id].chan, value: result }), // @C01
                    old(self)@.contains_key(request_id) ==> final(self).timers() =~= old(self).timers().remove(old(self).key_of(request_id)), // @C05,C11
                    !old(self)@.contains_key(request_id) ==> final(fx).log == old(fx).log && final(self).timers() =~= old(self).timers(), // @C01,C16
+                   step_complete(old(self)@, old(fx).log, final(self)@, final(fx).log, request_id, result), // @C01
                '''),
             Fn(SRC, IMPL, 'cancel_request', tags='C16',
                requires='old(self).wf(), // @core',
@@ -97,6 +100,7 @@ def parts():
                    r matches Some(p) ==> p.0 == old(self)@[request_id].ctx, // @C18
                    old(self)@.contains_key(request_id) ==> final(self).timers() =~= old(self).timers().remove(old(self).key_of(request_id)), // @C11
                    !old(self)@.contains_key(request_id) ==> final(self).timers() =~= old(self).timers(), // @C03,C16
+                   step_cancel::<Res>(old(self)@, Seq::empty(), final(self)@, Seq::empty(), request_id), // @C01
                '''),
             Fn(SRC, IMPL, 'poll_expired', fx=True, tags='C16',
                hints=[('let lifted__r = Self::poll_expired__closure(', '''
@@ -107,6 +111,10 @@ def parts():
                        if let Some(id) = lifted__r {
                            assert(old(self).request_data@.contains_key(id));
                            assert(old(self)@[id].chan == old(self).request_data@[id].response_completion.chan());
+                           let v = choose|v: Res| call_ensures(expired_error, (), v)
+                               && fx.log == old(fx).log.push(Effect::Deliver { chan: old(self).request_data@[id].response_completion.chan(), value: v });
+                           assert(self@ =~= old(self)@.remove(id));
+                           assert(step_expire(old(self)@, old(fx).log, self@, fx.log, id, v));
                        }
                    }
                ''')],
@@ -143,6 +151,7 @@ def parts():
                        && old(self).timers().contains_key(old(self).key_of(id)) && final(self).timers() =~= old(self).timers().remove(old(self).key_of(id)), // @C05,C11
                    r matches Poll::Ready(Some(id)) ==> exists|v: Res| call_ensures(expired_error, (), v)
                        && final(fx).log == old(fx).log.push(Effect::Deliver { chan: old(self)@[id].chan, value: v }), // @C05,C01
+                   r matches Poll::Ready(Some(id)) ==> exists|v: Res| step_expire(old(self)@, old(fx).log, final(self)@, final(fx).log, id, v), // @C01
                    r matches Poll::Ready(None) ==> old(self)@.dom().len() == 0 && final(self)@ =~= old(self)@ && final(self).timers() =~= old(self).timers() && final(fx).log == old(fx).log, // @C05,C02
                    r is Pending ==> final(self)@ =~= old(self)@ && final(self).timers() =~= old(self).timers() && final(fx).log == old(fx).log && final(self).timers_reg(), // @C02,C05
                '''),
@@ -155,4 +164,4 @@ def unit():
     return Unit('client_table', prelude=['base.rs', 'time.rs', 'delay_queue.rs', 'oneshot_tx.rs'],
                 parts=parts(), rules=TABLE_RULES,
                 fx_fns=FX_CALLS,
-                fx_prims=[r'response_completion\.send\('], fx_type='Fx<Res>')
+                fx_prims=[r'response_completion\.send\('], fx_type='Fx<Res>', lemmas=['client_history.rs'])
